@@ -435,11 +435,27 @@ def shards(tier):
                 # NA + k values per column. k = 3 up to 2 rows (quick) / 3 rows (thorough), else the first 2 values
                 k = 3 if n <= (2 if tier == "quick" else 3) else 2
                 out.append({"part": "pair", "f1": f1, "f2": f2, "n": n, "first": None, "k": k})
+    # size ladder: long columns whose leading run is missing (a dtype guessed from a prefix of the records is wrong here)
+    for fam in PAIR_FAMS:
+        out.append({"part": "long", "fam": fam, "n": 0})
     return out
+
+
+def long_cases(fam):
+    alpha = SMALL[fam]
+    for length, lead in ((17, 16), (101, 100), (130, 101), (1025, 1001), (130, 0)):
+        toks = [None] * lead + [alpha[i % len(alpha)] for i in range(length - lead)]
+        yield {"cols": [["x", fam, toks]]}
+        yield {"cols": [["b", fam, toks], ["a", "int", list(range(length))]]}
 
 
 def run_shard(shard, rec):
     n = shard["n"]
+    if shard["part"] == "long":
+        for case in long_cases(shard["fam"]):
+            check_case(case, rec)
+        rec.sample({"long": shard["fam"], "lengths": [17, 101, 130, 1025]})
+        return
     if shard["part"] == "single":
         fam = shard["fam"]
         alpha = (SMALL if shard["alpha"] == "small" else WIDE)[fam]
